@@ -148,9 +148,12 @@ func (c *MemoryCache[MetadataT]) Get(key CacheKey) (*Entry[MetadataT], error) {
 	entry.meta.LastAccess = time.Now()
 	metrics.Global.Cache.CacheHits.Increment()
 
+	// The caller uses the metadata after the lock is released: give it a snapshot, not the live record.
+	metaCopy := *entry.meta
+
 	return &Entry[MetadataT]{
 		Data:     &memoryReadSeekCloser{bytes.NewReader(entry.data)},
-		Metadata: entry.meta,
+		Metadata: &metaCopy,
 		Stale:    stale,
 	}, nil
 }
@@ -210,9 +213,11 @@ func (c *MemoryCache[MetadataT]) cacheInternal(key CacheKey, data io.Reader, exp
 	}
 	addCacheSize(&c.byteSize, int64(count))
 
+	metaCopy := *meta
+
 	return &Entry[MetadataT]{
 		Data:     &memoryReadSeekCloser{bytes.NewReader(dataBytes)},
-		Metadata: meta,
+		Metadata: &metaCopy,
 	}, nil
 }
 
@@ -291,5 +296,6 @@ func (c *MemoryCache[MetadataT]) GetMetadata(key CacheKey) (meta *EntryMetadata[
 	entry.meta.LastAccess = time.Now()
 	metrics.Global.Cache.CacheHits.Increment()
 
-	return entry.meta, stale, nil
+	metaCopy := *entry.meta
+	return &metaCopy, stale, nil
 }
